@@ -27,4 +27,24 @@ func runObligations(p *Prelude, obls []*Obligation, timeout int, thorough bool) 
 		}(o)
 	}
 	wg.Wait()
+	// A time-out in the parallel batch can be an artefact of contention (several thousand queries share the cores,
+	// other processes may run on the machine). Obligations that ended in a time-out - never those answered sat or
+	// unknown - are solved once more, one at a time, with the same budget per solver. At most retryCap of them, so that a
+	// tree that really breaks many obligations is not held up.
+	const retryCap = 6
+	n := 0
+	for _, o := range obls {
+		if o.Res == nil || o.ExpectSat || o.Res.Status != "timeout" || o.Canary != "" {
+			continue
+		}
+		if n >= retryCap {
+			break
+		}
+		n++
+		first := o.Res
+		q := p.buildQuery(o, false, 0)
+		o.Res = solve(q, o.Mode, timeout, thorough, o.ExpectSat)
+		o.Res.Seconds += first.Seconds
+		o.Retried = true
+	}
 }
